@@ -16,6 +16,7 @@ package main
 import (
 	"fmt"
 	"go/ast"
+	"go/constant"
 	"go/importer"
 	"go/parser"
 	"go/token"
@@ -394,4 +395,145 @@ func checkPackageState(cx *CheckCtx, sp *ssa.Package) {
 	}
 	cx.count("package_variables", nGlobals)
 	cx.decide(bad == "", "no-local-progress", "deploy/package-state", fmt.Sprintf("%d package-level variables, each only read outside the initialiser", nGlobals), "package-level variable "+bad+" is written, written through or handed out by address in a function body: the procedure keeps state of its own between stages and between a cancelled run and its restart (a cached transaction, a memo table), decisions no longer come from the chain alone", where)
+}
+
+// checkFoundFlag (found-flag): a boolean local that chooses between two different submissions ("the record
+// exists: replace it" / "it does not: add it") is the answer of a lookup. Where the flag is set to true on
+// the side on which some call's error was found nil (the lookup succeeded), it is not left false anywhere
+// on that side: whether what was found also *validates* (checksum, signature) is another question, and
+// "found but stale" still has to be replaced, not added a second time.
+func checkFoundFlag(cx *CheckCtx, sp *ssa.Package) {
+	w := cx.W
+	n := 0
+	type edge struct {
+		from *ssa.BasicBlock
+		val  bool
+	}
+	for _, fn := range allFuncs(sp) {
+		if fn.Blocks == nil {
+			continue
+		}
+		// nil sides of error tests
+		var nilSides []*ssa.BasicBlock
+		for _, b := range fn.Blocks {
+			iff, ok := b.Instrs[len(b.Instrs)-1].(*ssa.If)
+			if !ok {
+				continue
+			}
+			bo, ok := iff.Cond.(*ssa.BinOp)
+			if !ok || (bo.Op != token.EQL && bo.Op != token.NEQ) {
+				continue
+			}
+			var x ssa.Value
+			if c, ok := bo.Y.(*ssa.Const); ok && c.IsNil() {
+				x = bo.X
+			} else if c, ok := bo.X.(*ssa.Const); ok && c.IsNil() {
+				x = bo.Y
+			}
+			if x == nil || !isErrorType(x.Type()) {
+				continue
+			}
+			side := b.Succs[0]
+			if bo.Op == token.NEQ {
+				side = b.Succs[1]
+			}
+			if len(side.Preds) == 1 {
+				nilSides = append(nilSides, side)
+			}
+		}
+		var subs []*ssa.Call
+		for _, b := range fn.Blocks {
+			for _, ins := range b.Instrs {
+				if c, ok := ins.(*ssa.Call); ok && isSubmissionType(c.Type()) {
+					subs = append(subs, c)
+				}
+			}
+		}
+		if len(subs) < 2 || len(nilSides) == 0 {
+			continue
+		}
+		for _, b := range fn.Blocks {
+			iff, ok := b.Instrs[len(b.Instrs)-1].(*ssa.If)
+			if !ok {
+				continue
+			}
+			phi, ok := iff.Cond.(*ssa.Phi)
+			if !ok || !isBoolType(phi.Type()) {
+				continue
+			}
+			// both sides lead to a submission of their own
+			var s0, s1 *ssa.Call
+			for _, sc := range subs {
+				if viaEdge(b, 0, sc.Block()) {
+					s0 = sc
+				}
+				if viaEdge(b, 1, sc.Block()) {
+					s1 = sc
+				}
+			}
+			if s0 == nil || s1 == nil {
+				continue
+			}
+			// flatten the phi into (source block, constant) edges
+			var edges []edge
+			opaque := false
+			var flat func(p *ssa.Phi, depth int)
+			seen := map[*ssa.Phi]bool{}
+			flat = func(p *ssa.Phi, depth int) {
+				if seen[p] || depth > 8 {
+					return
+				}
+				seen[p] = true
+				for i, e := range p.Edges {
+					switch v := e.(type) {
+					case *ssa.Const:
+						if v.Value != nil && v.Value.Kind() == constant.Bool {
+							edges = append(edges, edge{p.Block().Preds[i], constant.BoolVal(v.Value)})
+						} else {
+							opaque = true
+						}
+					case *ssa.Phi:
+						flat(v, depth+1)
+					default:
+						opaque = true
+					}
+				}
+			}
+			flat(phi, 0)
+			if opaque || len(edges) < 2 {
+				continue
+			}
+			n++
+			bad := ""
+			// the lookup = the innermost succeeded call around each assignment of true (outer successes — the
+			// transaction was made, the client was created — enclose both answers and say nothing)
+			chosen := map[*ssa.BasicBlock]bool{}
+			for _, e := range edges {
+				if !e.val {
+					continue
+				}
+				var deepest *ssa.BasicBlock
+				for _, ns := range nilSides {
+					if ns.Dominates(e.from) && (deepest == nil || deepest.Dominates(ns)) {
+						deepest = ns
+					}
+				}
+				if deepest != nil {
+					chosen[deepest] = true
+				}
+			}
+			for ns := range chosen {
+				for _, e := range edges {
+					if !e.val && ns.Dominates(e.from) {
+						bad = w.pos(e.from.Instrs[len(e.from.Instrs)-1].Pos())
+						if p := e.from.Instrs[0].Pos(); bad == "" || bad == "?" || strings.HasPrefix(bad, "-") {
+							bad = w.pos(p)
+						}
+					}
+				}
+			}
+			cx.decide(bad == "", "found-flag", fmt.Sprintf("deploy.%s@%s", outerName(fn), w.pos(iff.Cond.Pos())), "the flag choosing between the two submissions is true wherever the lookup succeeded", "the flag that chooses between the two submissions is set on the side where the lookup's error was nil, yet can stay false on that side (around "+bad+"): a record that was found but did not validate is added a second time instead of being replaced", w.pos(s0.Pos()))
+		}
+	}
+	cx.count("found_flags", n)
 }
